@@ -18,7 +18,7 @@ FEATURES = {
     "rule": ["and", "none", "single", "nested", "or_shared"],
     "groups": ["none", "reactions", "metabolites", "genes", "mixed_kind"],
     "notes": ["none", "plain", "rxn_and_model"],
-    "annotation": ["none", "sbo", "string", "list", "gene_and_model"],
+    "annotation": ["none", "sbo", "string", "list", "gene_and_model", "list_nested_ids"],
     "names": ["plain", "empty", "formula_charge", "compartment_names", "subsystem"],
 }
 DEFAULT = {k: v[0] for k, v in FEATURES.items()}
@@ -106,6 +106,10 @@ def build(d):
     elif an == "list":
         A.annotation = {"kegg.compound": ["C00001", "C00002"], "chebi": ["CHEBI:15377"]}
         r1.annotation = {"rhea": ["10000", "10001"]}
+    elif an == "list_nested_ids":
+        # identifiers of one provider that contain each other, three or more identifiers, repeated provider
+        A.annotation = {"chebi": ["CHEBI:17234", "CHEBI:1723", "CHEBI:172"], "kegg.compound": ["C00031", "C0003"]}
+        r1.annotation = {"ec-code": ["1.1.1.100", "1.1.1.1"], "pubmed": ["1765", "21765"]}
     elif an == "gene_and_model":
         if m.genes:
             list(m.genes)[0].annotation = {"ncbigene": ["12345"]}
